@@ -14,7 +14,9 @@ META = {
              "each call returns alone; no deadlock, poisoning or panic."),
     "note": ("Mutex atomicity, Arc hand-off, thread scheduling, rayon and the per-run BufferPool are run-time behaviour and "
              "are not modelled; that equal plans / any valid plan give equal outputs is C02's theorem (exec group). "
-             "The weight cache is read-only after load and not modelled. F12 fixed in the tree the model describes."),
+             "The weight cache is read-only after load and not modelled. F12 fixed in the tree the model describes. "
+             "Value equality additionally needs the C02 fix for F11b (run inputs must not be replaced by operator outputs): "
+             "two corpus inputs fail on a tree without it."),
     "technique": "Coq proof (cache invariant over all schedules of atomic steps) + sequential correspondence + concurrent observation",
 }
 GROUP = "planner"
